@@ -494,6 +494,22 @@ pub fn drive(a: &Args) {
             }
         }
     }
+    // lists of EVERY length 0..20 (and 31..33, 64, 65) in which each partition contributes a boundary nobody else has:
+    // singletons, pairs, and nested staircases; a reduction that loses or repeats one list element at some length
+    // shows as a missing or an extra cut
+    for n in (0..=20usize).chain([31, 32, 33, 64, 65]) {
+        let singles: Vec<Vec<Iv>> = (0..n as u32).map(|k| vec![(10 * k + 5, 10 * k + 8)]).collect();
+        let stairs: Vec<Vec<Iv>> = (0..n as u32).map(|k| vec![(k, 2 * n as u32 + 5 - k)]).collect();
+        let twos: Vec<Vec<Iv>> = (0..n as u32).map(|k| vec![(3 * k, 3 * k), (1000 + 3 * k, 1001 + 3 * k)]).collect();
+        mo.emit(mergelist_record(&singles));
+        if n <= 33 {
+            mo.emit(mergelist_record(&stairs));
+            mo.emit(mergelist_record(&twos));
+            let mut rev = singles.clone();
+            rev.reverse();
+            mo.emit(mergelist_record(&rev));
+        }
+    }
     // full-alphabet scans of class_of_char: run-length encoded answers for a sample of partitions
     let nscan = a.sz(6, 200);
     let mut so = Out::create(&a.out, "part_scans.ndjson");
